@@ -9,6 +9,9 @@ JOBS = [
       fuc=["myth_uncond_signal_body"], timeout=200,
       note="bounded: the waiter registers itself before the call or within 3 polls of the signaller's spin (the spin body is a plain re-read)"),
 ]
+# the public API functions are one-line forwarders to the bodies under contract: checked mechanically (DESIGN §3.5b)
+from units.common_forward import forward_job
+JOBS = list(JOBS) + [forward_job("c08")]
 META = {
  "level": "proof",
  "level_text": "Call-protocol contracts on the real uncond wait/signal bodies: the waiter becomes visible only from the post-switch callback, the signaller clears the word before publishing exactly the waiter it read, and does not return before the hand-over. The signaller's spin is a bounded stand-in (waiter arrives within 3 polls).",
